@@ -2,8 +2,16 @@ import Tahoe.Immutable.FetchLemmasC46
 import Tahoe.Immutable.SegLemmas
 import Tahoe.Immutable.SysLemmas
 /-! C46 — immutable reads always terminate (property theorems over the DownloadNode segment queue
-`Tahoe.Fetch.Node` on top of the SegmentFetcher event system; helper lemmas in
-`Tahoe/Immutable/FetchLemmas*.lean`).
+`Tahoe.Fetch.Node` on top of the SegmentFetcher event system, over one read `Tahoe.Fetch.Seg`
+(`Segmentation`) and over the composed system `Tahoe.Fetch.Sys` = reads routed through the node;
+helper lemmas in `Tahoe/Immutable/FetchLemmas*.lean`, `SegLemmas.lean`, `SysLemmas.lean`).
+
+As built: 11 theorems — `no_stuck_state`, `later_reads_progress`, `do_loop_terminates`,
+`idle_fetcher_has_asked_for_more` (node / fetcher), `read_never_idle`,
+`read_terminates_when_answered`, `bad_segnum_retry`, `read_writes_exact_range` (one read),
+`waiting_read_request_is_routed`, `every_read_terminates` (composed system, end to end), and
+`unfixed_stuck_counterexample`.  All three models are tied to node.py / fetcher.py / segmentation.py
+by per-event state comparison (`node`, `seg`, `sys` lines of `Drv/C46.lean`).
 
 Termination is stated as a safety property: *no stuck quiescent state*.  The environment may do
 anything in any order (requests, cancels, share announcements, `no_more_shares`, answers of every
@@ -12,8 +20,8 @@ OVERDUE for a share that is not outstanding (`NEvOk`).  `NQuiescent`: nothing is
 active fetcher (no queued loop, the finder said `no_more_shares`, every started share has sent its
 terminal event).
 
-The theorems are about the code with `fixes/C46-active-segment.diff` applied (`Node.fixed = true`);
-`unfixed_stuck_counterexample` shows that the tree before that fix violates them.
+The theorems are about the code as repaired in /repo by 6853eb2 (`fixes/C46-active-segment.diff`,
+`Node.fixed = true`); `unfixed_stuck_counterexample` shows that the tree before that fix violated them.
 
 ## Coverage of the statement (properties.jsonl C46)
 
@@ -290,7 +298,7 @@ example : NQuiescent (nrun (initNode 1 2 [1]) exRun) ∧
     (nrun (initNode 1 2 [1]) exRun).retired = [(7, .decodeErr), (8, .ok)] ∧
     (nrun (initNode 1 2 [1]) exRun).requests = [] := by decide
 
-/-- **Counterexample on the unchanged tree** (`fixed = false`: the failure branch of
+/-- **Counterexample on the tree before fix 6853eb2** (`fixed = false`: the failure branch of
 `process_blocks._deliver` leaves `_active_segment` pointing at the stopped fetcher): the same valid
 history ends quiescent with request 8 still queued and never retired. -/
 theorem unfixed_stuck_counterexample :
